@@ -8,7 +8,7 @@ RULE = ('every ordered pair (g1, g2) of HRGs from a bounded family over shared n
         'e0,e1 (1-2 start rules out of 7 skeleton/labelling instances, one with an isolated internal node, 0-1 rule for X out of 4, one rule for Y, rules '
         'for a binary nonterminal W with externals in both orders) x nonterminal naming schemes (plain; the '
         '"X"+"Y,Z" / "X,Y"+"Z" clash; a terminal literally named like a pair; all natural pair names and their _1 variants taken; a shared terminal '
-        'name with equal / different type; a production listed twice; a nonterminal name carrying another type in g2, alone and together with a terminal conflict) x edge insertion order reversed in g2: the multiset of derivations (depth <= d) of '
+        'name with equal / different type; a production listed twice; a nonterminal name carrying another type in g2, alone and together with a terminal conflict) x edge and node insertion order reversed in g2: the multiset of derivations (depth <= d) of '
         'conjoin_hrgs(g1,g2) (each rule instance identified by its terminals, node ids, external ids and nonterminal-edge ids) must equal the multiset of conjoinable pairs of derivations, computed by the harness '
         'from g1 and g2; paired names distinct and fresh; ValueError exactly for a genuine terminal conflict. '
         'Non-trivial = pair with >= 1 paired derivation.')
@@ -98,7 +98,7 @@ def mk(side, spec, scheme, reverse, wrules):
            [('Y', Y_RULES[0], 0)] + [('W', W_RULES[i], i) for i in wrules]
     for lhs, (nodes, ext, nts), idx in plan:
         r = Graph()
-        for v in nodes:
+        for v in (reversed(nodes) if reverse else nodes):      # with reverse, g2 also inserts its nodes in the other order
             r.add_node(V[v])
         r.ext = [V[v] for v in ext]
         nts_ = list(reversed(nts)) if reverse else list(nts)
